@@ -55,11 +55,9 @@ theorem holdsB_iff (eqv : Val → Val → Bool) (c : Cond) (xs : List Val) : c.h
 /-! ## The main theorem -/
 
 /-- Well-formed configuration for a signature, as the property quantifies it, plus what goom itself rejects with an
-    explicit error: arities (`checkParams`, `ToExpr`), a default only for functions with results, something
-    registered at all, and — `checkParams` again — a *first* `When` must cover every parameter. -/
+    explicit error: arities (`checkParams`, `ToExpr`), something registered at all, and — `checkParams` again — a *first* `When` must cover every parameter. -/
 structure WFfull (sig : Sig) (cfg : Config) : Prop where
   conds_wf : ∀ p ∈ cfg.conds, p.1.WF sig
-  dflt_out : cfg.dflt ≠ none → sig.numOut ≠ 0
   nonempty : cfg.dflt = none → cfg.conds ≠ []
   first_len : cfg.dflt = none → ∀ specs r rest, cfg.conds = (Cond.when specs, r) :: rest → sig.nIn ≤ specs.length
 
@@ -78,7 +76,7 @@ def invoke_spec_full : Prop :=
       ∀ (recv : Val) (xs : List Val), (w.invoke eqv (encodeCall sig recv xs)).map Prod.fst = specOut eqv sig cfg xs
 
 private theorem wf_of_full (sig : Sig) (cfg : Config) (h : WFfull sig cfg) (hk : firstWhenHasArgs cfg = true) : cfg.WF sig := by
-  refine ⟨h.conds_wf, h.dflt_out, h.nonempty, ?_⟩
+  refine ⟨h.conds_wf, h.nonempty, ?_⟩
   intro hd specs r rest hc
   refine ⟨?_, h.first_len hd specs r rest hc⟩
   intro hs
@@ -112,6 +110,20 @@ theorem eval_spec (eqv : Val → Val → Bool) (sig : Sig) (cfg : Config) (h : W
     exact invoke_inv eqv sig cfg w hi _ xs (normalize_encode sig 0 xs)
   · simp only [hx, decide_true, Bool.not_true, Bool.false_eq_true, if_false]
     exact invoke_inv eqv sig cfg w hi _ xs (normalize_encode sig 0 xs)
+
+/-- `Matches(Pair{args, ret}, ...)` after a well-formed configuration is the same as one `When(args...).Return(ret)`
+    per pair, in order, behind the conditions registered so far; the default and earlier conditions are untouched.
+    (`numOut ≠ 0`: for a function without results the pair carries no result list, which the model does not cover.) -/
+theorem matches_spec (eqv : Val → Val → Bool) (sig : Sig) (cfg : Config) (h : WFfull sig cfg)
+    (hk : firstWhenHasArgs cfg = true) (_ho : sig.numOut ≠ 0) (ps : List (List Spec × Res))
+    (hps : ∀ p ∈ ps, (Cond.when p.1).WF sig) :
+    ∃ w w', build sig (cfg.script sig) = .ok w ∧ w.matchPairs ps = .ok w' ∧
+      ∀ (recv : Val) (xs : List Val), (w'.invoke eqv (encodeCall sig recv xs)).map Prod.fst =
+        specOut eqv sig { dflt := cfg.dflt, conds := cfg.conds ++ pairConds ps } xs := by
+  obtain ⟨w, hb, hi⟩ := build_inv sig cfg (wf_of_full sig cfg h hk)
+  obtain ⟨w', hm, hi'⟩ := matchPairs_inv sig cfg.dflt ps cfg.conds w hi hps
+  exact ⟨w, w', hb, hm, fun recv xs =>
+    invoke_inv eqv sig { dflt := cfg.dflt, conds := cfg.conds ++ pairConds ps } w' hi' _ xs (normalize_encode sig recv xs)⟩
 
 /-! ## The clauses of the property, declaratively -/
 
@@ -233,7 +245,7 @@ def exCfg : Config :=
               (.when [.val 1, .val 5], 3)] }
 
 example : WFfull exSig exCfg ∧ firstWhenHasArgs exCfg = true := by
-  refine ⟨⟨?_, by simp [exSig], by simp [exCfg], by simp [exCfg]⟩, rfl⟩
+  refine ⟨⟨?_, by simp [exCfg], by simp [exCfg]⟩, rfl⟩
   intro p hp
   simp only [exCfg, List.mem_cons, List.not_mem_nil, or_false] at hp
   rcases hp with rfl | rfl | rfl <;> simp [Cond.WF, arityOk, exSig, tupleResolves, Spec.resolves, altsResolve1]
